@@ -276,7 +276,7 @@ CHECKS = {
             "polynomial reproduction (Marsden's identity): not expressible here without a formalised spline theory; bounded probe only",
             "dual DATA: proved in the abstract module as superposition (value at x == sum_p S_p(x) * y_p with S_p the spline solved on the unit data e_p; lemma_spline_superposition, from csolve's uniqueness postcondition); that the coefficient of datum p's own variable in a Dual/Dual2 datum is 1, and hence the sensitivity IS S_p(x), is the module-axiom reading of Dual/Dual2 (assumed) and is exercised by the bounded probe",
             "least-squares mode: only the error returns are covered",
-            "dual abscissa: PPSpline<f64>::ppdnev_single_dual / ppdnev_single_dual2 ARE under contract (value S_m(x), gradient S_(m+1)(x)*grad x, Hessian by the chain rule with S_(m+1), S_(m+2), where S_j is what ppdnev_single(x, j) returns); the same two methods of PPSpline<Dual> / PPSpline<Dual2> (dual coefficients AND dual abscissa, through dmul11_) and the mapped_value dispatchers are covered by the bounded probe only",
+            "dual abscissa: PPSpline<f64>::ppdnev_single_dual / ppdnev_single_dual2 ARE under contract (value S_m(x), gradient S_(m+1)(x)*grad x, Hessian by the chain rule with S_(m+1), S_(m+2), where S_j is what ppdnev_single(x, j) returns); PPSpline<f64>::mapped_value (the dispatch on the kind of abscissa) is under contract too; the same methods of PPSpline<Dual> / PPSpline<Dual2> (dual coefficients AND dual abscissa, through dmul11_) are covered by the bounded probe only",
         ],
     },
     "C07": {
